@@ -57,6 +57,7 @@ func newZWorld(p *Program) *zworld {
 
 type zfn struct {
 	convBusy  map[*ssa.Convert]bool
+	pgDepth   int
 	convExact map[*ssa.Convert]bool
 	addBusy   map[*ssa.BinOp]bool
 	addExact  map[*ssa.BinOp]bool
@@ -1666,6 +1667,7 @@ func (z *zfn) factsAt(at ssa.Instruction) []lin {
 		}
 		cur = id
 	}
+	out = append(out, z.phiGuardFacts(at)...)
 	// generate definitional facts for everything mentioned so far is done eagerly by term(); collect anchored ones
 	for _, f := range z.facts {
 		if f.ablock != nil {
@@ -1679,6 +1681,127 @@ func (z *zfn) factsAt(at ssa.Instruction) []lin {
 		}
 	}
 	return out
+}
+
+// phiGuardFacts: `at` lies behind a nil test of a phi Q (x := head(q); if x == nil { return } — with head inlined, x
+// joins "nil, the queue was empty" and "q[0]").  The test excludes the edges of Q's block on which Q's value decides it
+// the other way; what is known on every remaining edge — the facts at the end of its predecessor and the condition of
+// the branch that leads into the block — holds at `at` too (same argument as edgeExcluded: the last execution of the
+// join before `at` came in through a remaining edge, and SSA values and memory versions named in those facts are not
+// redefined on the way).
+func (z *zfn) phiGuardFacts(at ssa.Instruction) []lin {
+	if z.pgDepth > 0 {
+		return nil
+	}
+	z.pgDepth++
+	defer func() { z.pgDepth-- }()
+	var out []lin
+	done := map[*ssa.BasicBlock]bool{}
+	for cur := at.Block(); cur != nil; {
+		id := cur.Idom()
+		if id == nil {
+			break
+		}
+		if iff, ok := id.Instrs[len(id.Instrs)-1].(*ssa.If); ok {
+			if bo, ok := iff.Cond.(*ssa.BinOp); ok && (bo.Op == token.EQL || bo.Op == token.NEQ) {
+				x, y := bo.X, bo.Y
+				if isNilConst(x) {
+					x, y = y, x
+				}
+				if q, ok := x.(*ssa.Phi); ok && isNilConst(y) && !done[q.Block()] {
+					pb := q.Block()
+					if l := innermostLoop(loopsOf(z.fn), pb); !(l != nil && l.head == pb) && (pb == id || pb.Dominates(id)) {
+						var remaining []int
+						for i := range q.Edges {
+							if !z.edgeExcluded2(q, i, at) {
+								remaining = append(remaining, i)
+							}
+						}
+						if len(remaining) > 0 && len(remaining) < len(q.Edges) {
+							done[pb] = true
+							var common map[string]lin
+							for _, i := range remaining {
+								pred := pb.Preds[i]
+								last := pred.Instrs[len(pred.Instrs)-1]
+								fs := append([]lin{}, z.factsAt(last)...)
+								if pif, ok := last.(*ssa.If); ok {
+									if pred.Succs[0] == pb && pred.Succs[1] != pb {
+										fs = append(fs, z.condFacts(pif.Cond, true)...)
+									} else if pred.Succs[1] == pb && pred.Succs[0] != pb {
+										fs = append(fs, z.condFacts(pif.Cond, false)...)
+									}
+								}
+								m := map[string]lin{}
+								for _, f := range fs {
+									m[f.String()] = f
+								}
+								if common == nil {
+									common = m
+								} else {
+									for k := range common {
+										if _, ok := m[k]; !ok {
+											delete(common, k)
+										}
+									}
+								}
+							}
+							for _, f := range common {
+								out = append(out, f)
+							}
+						}
+					}
+				}
+			}
+		}
+		cur = id
+	}
+	return out
+}
+
+// edgeExcluded2 is edgeExcluded for the phi that is itself tested (edgeExcluded looks at sibling phis).
+func (z *zfn) edgeExcluded2(q *ssa.Phi, i int, at ssa.Instruction) bool {
+	pb := q.Block()
+	pred := pb.Preds[i]
+	last := pred.Instrs[len(pred.Instrs)-1]
+	for cur := at.Block(); cur != nil && cur != pb; {
+		id := cur.Idom()
+		if id == nil || !(id == pb || pb.Dominates(id)) {
+			break
+		}
+		if iff, ok := id.Instrs[len(id.Instrs)-1].(*ssa.If); ok {
+			t, f := id.Succs[0], id.Succs[1]
+			truth, have := false, false
+			if t != f {
+				if (t == cur || t.Dominates(cur)) && edgeOnly(id, t) {
+					truth, have = true, true
+				} else if (f == cur || f.Dominates(cur)) && edgeOnly(id, f) {
+					truth, have = false, true
+				}
+			}
+			if bo, ok := iff.Cond.(*ssa.BinOp); have && ok && (bo.Op == token.EQL || bo.Op == token.NEQ) {
+				x, y := bo.X, bo.Y
+				if isNilConst(x) {
+					x, y = y, x
+				}
+				if x == ssa.Value(q) && isNilConst(y) {
+					wantNil := (bo.Op == token.EQL) == truth
+					ev := q.Edges[i]
+					switch {
+					case isNilConst(ev):
+						if !wantNil {
+							return true
+						}
+					case definitelyNonNil(ev, last):
+						if wantNil {
+							return true
+						}
+					}
+				}
+			}
+		}
+		cur = id
+	}
+	return false
 }
 
 // ioFacts: err == nil after io.ReadFull(r, buf) means n == len(buf).
